@@ -13,11 +13,13 @@ Obligations
              characterLiteralToLL, getSuffix, truncateIntValue/getMinMaxValues, Platform::set(name) + getSizeOf
   C6         CLI: `cppcheck --dump` of literal / constant-expression programs per platform; the reported known value of every
              literal token is compared with the model (toBigNumber + literal branch of valueFlowSetConstantValue)
+  C7         CLI: unary operators ~ - ! + on casts / const variables of every integer type, all built-in platforms: operator token value
+             = model foldUnary (branches of setTokenValue) on the operand token's value and type; P_impl: = Lean spec cUnary (promotion first)
 P_impl       (i) the real converters on the spelling of a structured literal give the value of the Lean SPEC (`lit`/`clit` ops);
              (ii) truncateIntValue = two's complement wrap; (iii) the reported known value of a constant expression = value of
              the C abstract machine for the platform (python reference evaluator).  The thorough tier validates the SPEC side
              (Lean literal values, reference evaluator, reference data models) against clang-14 static_assert probes / target macros.
-Findings     known_findings.d/C10.json (F5, F10b, F10c; fixed: F10d a4b8285, F10e 731a3b3, F10f bed3bd1, F10g 3fa1f26); witnesses in corpus/C10/cases.json
+Findings     known_findings.d/C10.json (F5, F10b, F10c, F10h, F10i; fixed: F10d a4b8285, F10e 731a3b3, F10f bed3bd1, F10g 3fa1f26); witnesses in corpus/C10/cases.json
 """
 import os, re, json, glob, subprocess
 import xml.etree.ElementTree as ET
@@ -27,7 +29,8 @@ ID = "C10"
 LEVEL = "other"
 RULE = ("cases = literal spellings (bases × digit runs around 2^7..2^64 × every suffix spelling incl. i64/uz/user-defined, "
         "signs, malformed neighbours), character literals (prefix × escapes × multi-char × UTF-8 × malformed), "
-        "truncation triples, platform/type pairs, and constant-expression programs per platform; "
+        "truncation triples, platform/type pairs, constant-expression programs per platform, and unary-operator programs "
+        "(operator × operand type × boundary values × cast/const-variable/comparison form) per platform; "
         "non-trivial = the input is accepted by at least one classifier or reaches a conversion branch (not the "
         "generic invalid_argument path), resp. the program yields at least one known value")
 EXPLANATION = ("partial: the Lean theorems hold for every integer literal of the grammar (unbounded digit strings, all bases/suffixes/signs), "
@@ -45,6 +48,8 @@ THEOREMS = [
     "Cppcheck.C10.truncate_eq_wrap", "Cppcheck.C10.truncate_signed", "Cppcheck.C10.truncate_unsigned",
     "Cppcheck.C10.minmax_eq_range_partial", "Cppcheck.C10.minmax_counterexample", "Cppcheck.C10.const_unsigned_adjust",
     "Cppcheck.C10.char_platform_sign", "Cppcheck.C10.const_signed_type",
+    "Cppcheck.C10.fold_lnot", "Cppcheck.C10.fold_bnot_partial", "Cppcheck.C10.fold_bnot_counterexample",
+    "Cppcheck.C10.fold_bnot_ulonglong_counterexample", "Cppcheck.C10.fold_neg_partial", "Cppcheck.C10.fold_neg_unsigned_counterexample",
     "Cppcheck.C10.sizeof_table", "Cppcheck.C10.sizeOf_eq_source", "Cppcheck.C10.bitsOf_eq_source",
     "Cppcheck.C10.platforms_sane", "Cppcheck.C10.platform_ranges_defined",
 ]
@@ -1014,6 +1019,205 @@ def cli_tie(ctx, res, drv, x, thorough):
 
 
 # ------------------------------------------------------------------------------------------------------------
+# C7: CLI tie for the unary operators  ~  -  !  +  on casts and const variables of every integer type
+# ------------------------------------------------------------------------------------------------------------
+UN_TYPES = [("signed char", "char", False), ("unsigned char", "char", True), ("short", "short", False), ("unsigned short", "short", True),
+            ("int", "int", False), ("unsigned int", "int", True), ("long", "long", False), ("unsigned long", "long", True),
+            ("long long", "llong", False), ("unsigned long long", "llong", True), ("BOOL", "bool", False)]
+UN_OPS = [("~", "bnot"), ("-", "neg"), ("!", "lnot"), ("+", "plus")]
+DUMP_ITY = {"bool": "bool", "char": "char", "short": "short", "int": "int", "long": "long", "long long": "longlong"}
+
+
+def c_int_text(v):
+    """spelling of an integer constant expression with value v and a type wide enough"""
+    if v >= 0:
+        return "%d%s" % (v, "ull" if v >= 2 ** 63 else "ll" if v >= 2 ** 31 else "")
+    if v == -2 ** 63:
+        return "(-9223372036854775807ll-1)"
+    return "(-%d%s)" % (-v, "ll" if -v >= 2 ** 31 else "")
+
+
+def un_expr(rng, P, cpp):
+    """dict(src (function body), op, t, uns, v (operand value), form)"""
+    tn, t, uns = rng.choice(UN_TYPES)
+    osym, op = rng.choice([UN_OPS[0]] * 4 + [UN_OPS[1]] * 3 + [UN_OPS[2], UN_OPS[3]])
+    if t == "bool":
+        tn = "bool" if cpp else "_Bool"
+        b, v = 1, rng.choice([0, 1])
+    else:
+        b = P.bits(t)
+        if uns:
+            v = rng.choice([0, 1, 2, 0x0f, (1 << (b - 1)) - 1, 1 << (b - 1), (1 << b) - 2, (1 << b) - 1, rng.randrange(1 << b)])
+        else:
+            v = rng.choice([-(1 << (b - 1)), -(1 << (b - 1)) + 1, -2, -1, 0, 1, 2, (1 << (b - 1)) - 2, (1 << (b - 1)) - 1,
+                            rng.randrange(-(1 << (b - 1)), 1 << (b - 1))])
+    k = rng.random()
+    e = dict(op=op, osym=osym, t=t, uns=uns, v=v, tn=tn)
+    if k < 0.5:
+        e.update(form="cast", src="return %s(%s)%s;" % (osym, tn, c_int_text(v)))
+    elif k < 0.85 or t == "bool" or P.bits(t) >= P.bits("int") or op in ("plus", "lnot"):
+        e.update(form="var", src="const %s m = %s; return %sm;" % (tn, c_int_text(v), osym))
+    else:
+        # the un-converted result compared with a constant: the value a narrow unsigned operand would give WITHOUT promotion, or the right one
+        e.update(form="cmp", src=None)
+    return e
+
+
+def un_program(exprs):
+    return "".join("long long f%d(void) { %s }\n" % (i, e["src"]) for i, e in enumerate(exprs))
+
+
+def read_dump_unary(path):
+    """line → dict(ret=token under `return`, its known values, operand token + known values)"""
+    root = ET.parse(path).getroot()
+    out = {}
+    for d in root.iter("dump"):
+        toks = {}
+        for t in d.iter("token"):
+            toks[t.get("id")] = t.attrib
+        vals = {}
+        vf = d.find("valueflow")
+        if vf is not None:
+            for vs in vf.iter("values"):
+                vals[vs.get("id")] = [v.attrib for v in vs.iter("value")]
+
+        def known(tok):
+            return [wrap64(int(v["intvalue"])) for v in vals.get(tok.get("values"), []) if v.get("known") == "true" and "intvalue" in v and v.get("bound", "Point") == "Point"]
+        for t in toks.values():
+            if t.get("str") == "return" and t.get("astOperand1"):
+                top = toks.get(t["astOperand1"])
+                if top is None:
+                    continue
+                opd = toks.get(top.get("astOperand1")) if top.get("astOperand1") and not top.get("astOperand2") else None
+                out[int(t["linenr"])] = dict(top=top, top_known=known(top), opd=opd, opd_known=known(opd) if opd is not None else [])
+    return out
+
+
+def classify_unary(P, e, spec, reported):
+    """known-finding classes of a folded unary operator that differs from the C value"""
+    v, pu = e["v"], spec["pu"]
+    if e["form"] != "cmp":
+        if e["op"] == "neg" and pu and reported == wrap64(-v):
+            return "fold-unary-minus-unsigned"                       # F10b
+        if e["op"] == "bnot" and e["uns"] and e["t"] == "short" and P.bits("short") == P.bits("int") and reported == -v - 1:
+            return "fold-bitnot-ushort-wide-as-int"                  # F10h
+        if e["op"] == "bnot" and e["uns"] and e["t"] == "llong" and P.bits("llong") < 64 and reported == -v - 1:
+            return "fold-bitnot-ulonglong-narrow"                    # F10i
+    return None
+
+
+def run_unary_case(ctx, res, drv, P, cpp, exprs, tag):
+    """returns (#known results, violation dicts); registers the model tie mismatches in res.extra"""
+    # SPEC (Lean `cun`): promoted type and C value
+    sp_ops = ["cun %s %d %d %d %d" % (e["op"], e["v"], 1 if e["t"] == "bool" else P.bits(e["t"]), 1 if e["uns"] else 0, P.bits("int")) for e in exprs]
+    rc, sp_out, err = core.run_lines(drv, [], sp_ops)
+    specs = []
+    for e, o in zip(exprs, sp_out):
+        m = re.match(r"^(-?\d+) pbits=(\d+) punsigned=([01])$", o)
+        if not m:
+            raise core.CheckBroken("driver answered %r to a cun op" % o)
+        sp = dict(value=int(m.group(1)), pb=int(m.group(2)), pu=m.group(3) == "1")
+        # undefined in C: negation of the minimum of the (signed) promoted type
+        sp["undefined"] = e["op"] == "neg" and not sp["pu"] and e["v"] == -(1 << (sp["pb"] - 1))
+        specs.append(sp)
+        if e["form"] == "cmp":
+            wrong = (~e["v"]) & ((1 << P.bits(e["t"])) - 1) if e["op"] == "bnot" else (-e["v"]) & ((1 << P.bits(e["t"])) - 1)
+            k = wrong if ctx.rng.random() < 0.6 else sp["value"]
+            e["k"] = k
+            e["src"] = "return (%s(%s)%s == %s);" % (e["osym"], e["tn"], c_int_text(e["v"]), c_int_text(k))
+            sp["cmp"] = 1 if sp["value"] == k else 0
+    d = os.path.join(ctx.tmp, "un_%s" % tag)
+    os.makedirs(d, exist_ok=True)
+    src = os.path.join(d, "u.cpp" if cpp else "u.c")
+    open(src, "w").write(un_program(exprs))
+    for attempt in range(6):
+        try:
+            rc, out, err = core.sh([ctx.cppcheck, "--platform=" + P.name, "--dump", "-q", src], cwd=d, timeout=120)
+            break
+        except OSError:
+            if attempt == 5:
+                raise
+            import time
+            time.sleep(2)
+            ctx.build_repo()
+    if not os.path.exists(src + ".dump"):
+        raise core.CheckBroken("cppcheck --dump produced no dump for %s on %s: rc=%s %s" % (src, P.name, rc, (out + err)[-300:]))
+    lines = read_dump_unary(src + ".dump")
+    viol, nknown, fops, fexp = [], 0, [], []
+    for i, (e, sp) in enumerate(zip(exprs, specs)):
+        r = lines.get(1 + i)
+        if r is None:
+            res.count("unary:no-return-token")
+            continue
+        rep = r["top_known"][0] if r["top_known"] else None
+        res.count("unary:%s:%s:%s" % (e["op"], e["form"], "known" if rep is not None else "novalue"))
+        nknown += rep is not None
+        res.case("unary|%s|%s|%s" % (P.name, "cpp" if cpp else "c", e["src"]), rep is not None,
+                 dict(tie="cli-unary", platform=P.name, lang="cpp" if cpp else "c", expr=e["src"], reported=rep, reference=sp["value"]) if i == 0 else None)
+        if e["form"] == "cmp":
+            if rep is not None and rep != sp["cmp"]:
+                viol.append(dict(platform=P.name, lang="cpp" if cpp else "c", expr=e["src"], reported=rep, reference=sp["cmp"], key=None))
+            continue
+        # (a) model tie: the operator token's value = foldUnary(value and type of the operand token as cppcheck has them) + guard
+        opd, top = r["opd"], r["top"]
+        if opd is not None and r["opd_known"] and opd.get("valueType-type") in DUMP_ITY and not opd.get("valueType-pointer") and top.get("str") == e["osym"]:
+            tty = top.get("valueType-type")
+            tsz = P.size.get(VT_SIZE.get(tty, ""), 1 if tty == "bool" else 0)
+            fops.append("fold %s %d %d %s %d %d %d %d" % (e["op"], r["opd_known"][0], 1 if opd.get("valueType-sign") == "unsigned" else 0,
+                                                        DUMP_ITY[opd["valueType-type"]], P.bits("int"), P.bits("long"),
+                                                        1 if top.get("valueType-sign") == "unsigned" else 0, tsz))
+            fexp.append((e, rep))
+        # (b) P_impl: the C value on the platform
+        if rep is not None and not sp["undefined"] and rep != wrap64(sp["value"]):
+            viol.append(dict(platform=P.name, lang="cpp" if cpp else "c", expr=e["src"], reported=rep, reference=sp["value"],
+                             key=classify_unary(P, e, sp, rep)))
+    if fops:
+        rc, fo, _ = core.run_lines(drv, [], fops)
+        bad = []
+        for (e, rep), op, o in zip(fexp, fops, fo):
+            want = None if o == "novalue" else int(o) if re.match(r"^-?\d+$", o) else "?"
+            if want != rep:
+                bad.append("%s on %s: reported %s, model %s (%s)" % (e["src"], P.name, rep, want, op))
+        res.traces_validated += len(fexp) - len(bad)
+        res.extra["unary_model_checked"] = res.extra.get("unary_model_checked", 0) + len(fexp)
+        if bad:
+            res.extra.setdefault("unary_model_mismatch", []).extend(bad[:5])
+    return nknown, viol
+
+
+def unary_tie(ctx, res, drv, x, thorough):
+    rng = ctx.rng
+    allp = [Plat(n, v) for n, v in x["builtin"]] + [Plat("native", x["native"])] + [Plat(n, v) for n, v in x["files"]]
+    if thorough:
+        runs = [(P, cpp, 110) for P in allp for cpp in (False, True)]
+    else:
+        builtin = [p for p in allp if p.name in ("unix32", "unix64", "win32A", "win32W", "win64")]
+        files = [p for p in allp if p.name not in ("unix32", "unix64", "win32A", "win32W", "win64", "native")]
+        runs = [(P, bool((i + ctx.seed) % 2), 60) for i, P in enumerate(builtin)] + [(P, rng.random() < 0.5, 60) for P in rng.sample(files, min(2, len(files)))]
+    nknown, viols = 0, []
+    for P, cpp, n in runs:
+        exprs = [un_expr(rng, P, cpp) for _ in range(n)]
+        k, v = run_unary_case(ctx, res, drv, P, cpp, exprs, "%s_%d" % (P.name, cpp))
+        nknown += k
+        viols += v
+    res.extra["unary_platforms"] = sorted(set(P.name for P, _, _ in runs))
+    res.extra["unary_known_values"] = nknown
+    res.oblig("correspondence:cli-unary-folding-vs-model", not res.extra.get("unary_model_mismatch") and res.extra.get("unary_model_checked", 0) > 50,
+              "correspondence", "; ".join(res.extra.get("unary_model_mismatch", [])) or "")
+    seen = {}
+    for v in viols:
+        n = seen.get(v["key"], 0)
+        seen[v["key"]] = n + 1
+        if n < (3 if v["key"] else 25):
+            res.violation("folded unary operator differs from the C value (promotion, then the operator) on platform %s (%s): `%s` reported %d, C value %d" %
+                          (v["platform"], v["lang"], v["expr"], v["reported"], v["reference"]),
+                          dict(kind="unary", platform=v["platform"], lang=v["lang"], expr=v["expr"], reported=v["reported"], reference=v["reference"],
+                               replay_cmd="./check.py C10 --replay <this file>"), concrete=True, key=v["key"])
+    for k, n in seen.items():
+        res.count("unary:violation:%s" % (k or "unclassified"), n)
+
+
+# ------------------------------------------------------------------------------------------------------------
 # corpus: witnesses of the findings and past disagreements; replayed first on every run
 # ------------------------------------------------------------------------------------------------------------
 def load_corpus():
@@ -1070,6 +1274,17 @@ def run(ctx, res):
                     res.violation("corpus witness: `%s` on %s (%s) reported %d, reference %d" % (v["expr"], v["platform"], v["lang"], v["reported"], v["reference"]),
                                   dict(kind="cli", platform=v["platform"], lang=v["lang"], expr=v["expr"], reported=v["reported"], reference=v["reference"]),
                                   concrete=True, key=v["key"])
+        for c in corpus:
+            if "unary" in c:
+                w = c["unary"]
+                vals = dict(x["builtin"]); vals["native"] = x["native"]; vals.update(dict(x["files"]))
+                if w["platform"] in vals:
+                    k, vv = run_unary_case(ctx, res, drv, Plat(w["platform"], vals[w["platform"]]), w["lang"] == "cpp", [dict(w["case"])],
+                                           "corpus_%d" % corpus.index(c))
+                    for v in vv:
+                        res.violation("corpus witness: `%s` on %s (%s) reported %d, C value %d" % (v["expr"], v["platform"], v["lang"], v["reported"], v["reference"]),
+                                      dict(kind="unary", platform=v["platform"], lang=v["lang"], expr=v["expr"], reported=v["reported"], reference=v["reference"]),
+                                      concrete=True, key=v["key"])
     # C1..C5 -----------------------------------------------------------------------------------------------
     ops = corpus_ops() + inproc_ops(ctx, x, thorough)
     rc, impl, err = core.run_lines(exe, [core.REPO], ops)
@@ -1107,9 +1322,10 @@ def run(ctx, res):
     allp = None
     if have_tables:
         allp = cli_tie(ctx, res, drv, x, thorough)
+        unary_tie(ctx, res, drv, x, thorough)
     # thorough: validate the SPEC against compilers ----------------------------------------------------------
     if thorough and have_tables:
-        spec_probes(ctx, res, cases, allp)
+        spec_probes(ctx, res, cases, allp, drv)
     # search when an obligation broke and nothing concrete is known yet ----------------------------------------
     if any(not o["ok"] for o in res.obligations) and not any(v["concrete"] and not known_key(v.get("key")) for v in res.violations):
         search(ctx, res, drv, exe, x, have_tables)
@@ -1181,7 +1397,7 @@ def clang_asserts(ctx, target, cpp, asserts, extra=()):
     return failed, rejected, err
 
 
-def spec_probes(ctx, res, cases, allp):
+def spec_probes(ctx, res, cases, allp, drv):
     rng = ctx.rng
     # (1) Lean spec values of structured literals against clang (x86-64: signed char, 32-bit int = the host assumptions of the model)
     asserts, meta = [], []
@@ -1251,6 +1467,32 @@ def spec_probes(ctx, res, cases, allp):
             failed, rejected, err = clang_asserts(ctx, tgt, cpp, asserts, ["-funsigned-char" if P.char_unsigned else "-fsigned-char"])
             total += len(asserts) - len(rejected)
             contradicted += ["%s/%s: %s" % (P.name, tgt, asserts[i]) for i in sorted(failed)]
+    # (4) the Lean spec of the unary operators (`cun`: promotion, then the operator) against the same targets
+    utotal, ubad = 0, []
+    for P in allp:
+        tgt, tm = CLANG_TARGET.get(P.name), models.get(P.name)
+        if P.name not in used:
+            continue
+        for cpp in (False, True):
+            es = [e for e in (un_expr(rng, P, cpp) for _ in range(120)) if e["form"] == "cast" and e["t"] != "bool"]
+            ops = ["cun %s %d %d %d %d" % (e["op"], e["v"], P.bits(e["t"]), 1 if e["uns"] else 0, P.bits("int")) for e in es]
+            rc, so, _ = core.run_lines(drv, [], ops)
+            kw = "static_assert" if cpp else "_Static_assert"
+            asserts = []
+            for e, o in zip(es, so):
+                m = re.match(r"^(-?\d+) pbits=(\d+) punsigned=([01])$", o)
+                val, pb, pu = int(m.group(1)), int(m.group(2)), m.group(3) == "1"
+                if e["op"] == "neg" and not pu and e["v"] == -(1 << (pb - 1)):
+                    asserts.append("")        # undefined behaviour: nothing to assert
+                    continue
+                body = e["src"][len("return "):-1]
+                asserts.append('%s((%s) == %s, "");' % (kw, body, c_int_text(val)))
+            failed, rejected, err = clang_asserts(ctx, tgt, cpp, asserts, ["-funsigned-char" if P.char_unsigned else "-fsigned-char"])
+            utotal += len([a for a in asserts if a]) - len(rejected)
+            ubad += ["%s/%s: %s" % (P.name, tgt, asserts[i]) for i in sorted(failed)]
+    res.extra["spec_probe_unary"] = dict(asserted=utotal, contradicted=len(ubad))
+    res.oblig("spec:unary-operator-values-agree-with-clang", not ubad and utotal > 500, "spec-validation",
+              "" if not ubad else "clang contradicts the Lean specification cUnary: %s" % ubad[:5])
     res.extra["spec_probe_expressions"] = dict(asserted=total, contradicted=len(contradicted), platforms=used)
     res.oblig("spec:reference-evaluator-agrees-with-clang", not contradicted and total > 1000, "spec-validation",
               "" if not contradicted else "clang contradicts the reference evaluator: %s" % contradicted[:5])
@@ -1269,6 +1511,18 @@ def replay(ctx, res, rp):
         k, v = run_cli_case(ctx, res, drv, P, rp["lang"] == "cpp", [e], "replay")
         for vv in v:
             res.violation("`%s` on %s reported %d, reference %d" % (vv["expr"], vv["platform"], vv["reported"], vv["reference"]), dict(vv), concrete=True, key=None)
+    elif rp.get("kind") == "unary":
+        x = extract(ctx)
+        vals = dict(x["builtin"]); vals["native"] = x["native"]; vals.update(dict(x["files"]))
+        P = Plat(rp["platform"], vals[rp["platform"]])
+        d = os.path.join(ctx.tmp, "replay_un"); os.makedirs(d, exist_ok=True)
+        src = os.path.join(d, "u.cpp" if rp["lang"] == "cpp" else "u.c")
+        open(src, "w").write("long long f0(void) { %s }\n" % rp["expr"])
+        core.sh([ctx.cppcheck, "--platform=" + P.name, "--dump", "-q", src], cwd=d, timeout=120)
+        r = read_dump_unary(src + ".dump").get(1)
+        rep = r["top_known"][0] if r and r["top_known"] else None
+        if rep is not None and rep != wrap64(rp["reference"]):
+            res.violation("`%s` on %s reported %d, C value %d" % (rp["expr"], P.name, rep, rp["reference"]), dict(rp), concrete=True, key=None)
     elif "op" in rp:
         rc, a, _ = core.run_lines(exe, [core.REPO], [rp["op"]])
         rc, b, _ = core.run_lines(drv, [], [rp["op"]])
